@@ -91,6 +91,19 @@ let run_tlscfg (parts : string list) : string =
        | VerifyClientCertIfGiven -> "verifyifgiven" | RequireAndVerifyClientCert -> "requireandverify")
       (match cas with None -> "none" | Some p -> pool p)
 
+(* kind upcfg: the router's mapping config entry -> upstream (upc_init_upstream), one exchange *)
+let run_upcfg (parts : string list) : string =
+  let f = fields parts in
+  let b k = fld f k = "1" in
+  let url = hexf f "url" and da = hexf f "da" in
+  let o = { o_ca = b "ca"; o_cert_key = b "ck"; o_insecure = b "ins"; o_verify_client = false } in
+  let peer = (match fld f "peer" with "-" -> None | s -> cert_kind_of s) in
+  match upc_case url da o peer (b "srvreq") with
+  | None -> "start=err"
+  | Some ((ok, tls), dial) ->
+    Printf.sprintf "start=ok dial=%s x=%s || spec=ok tls=%d" (txt dial) (if ok then "ok" else "fail") (if tls then 1 else 0)
+
+let () = register "upcfg" run_upcfg
 let () = register "addr" run_addr
 let () = register "sockets" run_sockets
 let () = register "tlscfg" run_tlscfg
